@@ -639,12 +639,17 @@ func vp9RtCase(x *Ctx, mk func(c *Case) (flex bool, init int, calls []vp9Call)) 
 		rcv := &codecs.VP9Packet{}
 		c.O.Nat(len(calls))
 		nontrivial := false
+		// payload the whole history first, read it afterwards (see vp8RtCase)
+		all := make([][][]byte, 0, len(calls))
 		for _, cl := range calls {
 			var frags [][]byte
 			if try(func() { frags = pay.Payload(uint16(cl.MTU), cloneBytes(cl.Frame)) }) {
 				c.O.Tok("PAYLOAD-PANIC")
 				return
 			}
+			all = append(all, frags)
+		}
+		for _, frags := range all {
 			if len(frags) > 1 {
 				nontrivial = true
 			}
